@@ -28,6 +28,31 @@ class Obligation:
                 'witness': self.witness}
 
 
+DEFERRED = None   # thorough tier: a list collecting the reports of the passes, merged by `merge_passes`
+
+
+def merge_passes(reps, labels):
+    """one report out of several passes of the same check over different configurations: an obligation holds iff it holds in every pass"""
+    base = reps[0]
+    for r, lab in zip(reps[1:], labels[1:]):
+        for o in r.obls:
+            if o.rule == 'FLOOR':
+                o.key = o.key + '@' + lab
+                o.what = o.what + ' [%s]' % lab
+            elif not o.ok:
+                o.detail = '[%s] %s' % (lab, o.detail)
+            base.add(o)
+        for k, v in r.analysed.items():
+            base.analysed['%s [%s]' % (k, lab)] = v
+        for a, b, c in r.floors:
+            base.floors.append(('%s [%s]' % (a, lab), b, c))
+        for n in r.notes:
+            if n not in base.notes:
+                base.notes.append(n)
+    base.extra['passes'] = list(labels)
+    return base
+
+
 class Report:
     def __init__(self, prop, tier, level, checker_cmd):
         self.prop = prop
@@ -69,6 +94,9 @@ class Report:
 
     # ------------------------------------------------------------------------------------------------------
     def finish(self):
+        if DEFERRED is not None:
+            DEFERRED.append(self)
+            return 0
         known = load_known()
         kf = {(f['property'], f['key']): f for f in known.get('findings', [])}
         viol = [o for o in self.obls if not o.ok]
